@@ -126,7 +126,8 @@ def gen_value(r, kind, old):
     if kind == "flag01":
         return r.choice(["0", "1"])
     if kind == "freetext":
-        return r.choice(["x", "hello world", "caf\xe9 \xfcber", "a" * r.randint(2, 80)])
+        # (free text may be empty: an empty push name, an empty status — present and empty is not absent)
+        return r.choice(["", "x", "hello world", "caf\xe9 \xfcber", "a" * r.randint(2, 80)])
     if kind == "bytes":
         n = len(old) if isinstance(old, (bytes, bytearray)) and len(old) else r.randint(1, 24)       # binary fields keep their documented size
         return bytes(bytearray(r.randrange(256) for _ in range(n)))
